@@ -100,26 +100,26 @@ func URLLabel(s string) (isURL bool, known bool) {
 
 // URLPool: strings labelled by construction (scheme and authority present or not).
 var urlPool = map[string]bool{
-	"http://example.com":              true,
-	"https://example.com/path?q=1#f":  true,
-	"ftp://host":                      true,
-	"http://localhost:8080":           true,
-	"custom+scheme://h.example":       true,
-	"http://[::1]:80/":                true,
-	"http://user:pw@host.example/x":   true,
-	"example.com":                     false,
-	"//example.com/path":              false, // authority without scheme
-	"http:///path":                    false, // scheme without authority
-	"mailto:someone@example.com":      false, // opaque, no authority
-	"http:example.com":                false,
-	"/just/a/path":                    false,
-	"":                                false,
-	"not a url":                       false,
-	"http://exa mple.com":             false, // space in host is a parse error
-	"http://example.com/%zz":          false, // invalid escape
-	"1http://example.com":             false, // scheme must start with a letter
-	"://example.com":                  false,
-	"http://":                         false,
+	"http://example.com":             true,
+	"https://example.com/path?q=1#f": true,
+	"ftp://host":                     true,
+	"http://localhost:8080":          true,
+	"custom+scheme://h.example":      true,
+	"http://[::1]:80/":               true,
+	"http://user:pw@host.example/x":  true,
+	"example.com":                    false,
+	"//example.com/path":             false, // authority without scheme
+	"http:///path":                   false, // scheme without authority
+	"mailto:someone@example.com":     false, // opaque, no authority
+	"http:example.com":               false,
+	"/just/a/path":                   false,
+	"":                               false,
+	"not a url":                      false,
+	"http://exa mple.com":            false, // space in host is a parse error
+	"http://example.com/%zz":         false, // invalid escape
+	"1http://example.com":            false, // scheme must start with a letter
+	"://example.com":                 false,
+	"http://":                        false,
 }
 
 func URLPoolKeys() []string {
